@@ -605,8 +605,13 @@ def absent_alike(ctx):
     Missing and Vacant alike: the two edges go to the same block, or to code that does the same calls."""
     mir = ctx.mir
     r6 = ctx.rule('R17.6', 'outside the bucket-table writers, a decision on a key location does not tell Missing from Vacant')
+    writers = {x.nid for x in mir.bodies if TABLE_INTERNALS.search(x.nid) and 'KeyLocation' not in x.nid and x.kind == 'fn'}
     for b in mir.bodies:
         if b.file not in FILES or TABLE_INTERNALS.search(b.nid):
+            continue
+        # a private helper of the writers (an `add_absent(loc, element)` holding their Missing / Vacant arms) is a table internal too
+        base = [x for x in mir.bodies if x.nid == b.nid.split('::{closure')[0]]
+        if base and base[0].nid not in writers and re.search(r'builtin::(mapping::XMapping|set::XSet)::\w+$', base[0].nid) and mirq.private_helper_of(mir, base[0], writers, depth=1):
             continue
         for bb in range(len(b.blocks)):
             tm = b.term(bb)
